@@ -10,6 +10,11 @@
 // Client side (clnt_test.go): the scripted peer's reply stream for a fixed set
 // of concurrent calls is delivered under the same kinds of plans; every call
 // result must be the function of its own request and equal the reference run's.
+//
+// Further server-side classes: nego (nego_test.go), lower and pend
+// (lower_test.go), malf (malf_test.go: one malformed frame -- a field reaching
+// beyond the frame's end -- inside the stream, valid requests behind it);
+// client side: cmalf (cmalf_test.go: one such reply inside the reply stream).
 package c13
 
 import (
@@ -27,6 +32,9 @@ import (
 )
 
 func TestMain(m *testing.M) { hx.Main(m, "C13") }
+
+// client reports whether the case exercises the client's receive loop.
+func (c *Case) client() bool { return c.Side == "client" || c.Side == "cmalf" }
 
 // Frame is one request of the server-side stream.
 type Frame struct {
@@ -51,6 +59,7 @@ type Plan struct {
 
 type Case struct {
 	// server | client | nego (server side, negotiation inside the measured stream, one frame above the new msize)
+	// | malf (server side, one malformed frame inside the stream) | cmalf (client side, one malformed reply)
 	// | lower (server side, SrvMsize set: the measured stream starts with a Tversion that lowers the msize
 	// from SrvMsize to Msize, every following frame fits) | pend (server side, Maxpend set)
 	Side  string `json:"side"`
@@ -64,6 +73,8 @@ type Case struct {
 	Frames  []Frame  `json:"frames,omitempty"`
 	Rounds  [][]Call `json:"rounds,omitempty"`
 	Nego    *Nego    `json:"nego,omitempty"`
+	Malf    *Malf    `json:"malf,omitempty"`  // Side malf: the frame behind Frames is malformed (a field reaches beyond the frame's end)
+	CMalf   *CMalf   `json:"cmalf,omitempty"` // Side cmalf: one reply of the last round is malformed in the same sense
 	Plan    Plan     `json:"plan"`
 }
 
@@ -107,12 +118,16 @@ func go9pState(recvFn string) string {
 			}
 			continue
 		}
-		if !strings.Contains(blk, "github.com/rminnich/go9p.") {
+		// the harness's own goroutines of a client run (the callers, which come
+		// back from go9p and record their result, and the one that waits for all
+		// of them) count too: a caller that has returned but was not yet given
+		// the CPU to say so is not "a call that never returns"
+		if !strings.Contains(blk, "github.com/rminnich/go9p.") && !strings.Contains(blk, "checks/c13.runClient.func") {
 			continue
 		}
 		head, _, _ := strings.Cut(blk, "\n")
 		blocked := false
-		for _, w := range []string{"[chan receive", "[chan send", "[select", "[sync.Cond.Wait", "[semacquire", "[sync.Mutex.Lock", "[sync.RWMutex"} {
+		for _, w := range []string{"[chan receive", "[chan send", "[select", "[sync.Cond.Wait", "[semacquire", "[sync.Mutex.Lock", "[sync.RWMutex", "[sync.WaitGroup.Wait"} {
 			if strings.Contains(head, w) {
 				blocked = true
 			}
@@ -223,7 +238,7 @@ func clip(b []byte) []byte {
 
 // layout returns stream length and frame boundaries of a case.
 func layout(c *Case) (n int, bounds []int, err error) {
-	if c.Side == "client" {
+	if c.client() {
 		l, err := clientLayout(c)
 		if err != nil {
 			return 0, nil, err
@@ -239,15 +254,21 @@ func layout(c *Case) (n int, bounds []int, err error) {
 
 // build and deliver select the server-side stream class.
 func build(c *Case) (*built, error) {
-	if c.Side == "nego" {
+	switch c.Side {
+	case "nego":
 		return buildNego(c)
+	case "malf":
+		return buildMalf(c)
 	}
 	return buildStream(c)
 }
 
 func deliver(c *Case, b *built, cuts []int) (*obs, error) {
-	if c.Side == "nego" {
+	switch c.Side {
+	case "nego":
 		return runNego(c, b, cuts)
+	case "malf":
+		return runDrop(c, b, cuts, c.Msize)
 	}
 	return runServer(c, b, cuts)
 }
@@ -255,7 +276,7 @@ func deliver(c *Case, b *built, cuts []int) (*obs, error) {
 // RunCase executes one case: the reference delivery and the case's plan, each
 // checked against the prediction and the plan against the reference.
 func RunCase(c *Case) error {
-	if c.Side == "client" {
+	if c.client() {
 		l, err := clientLayout(c)
 		if err != nil {
 			return err
@@ -333,12 +354,18 @@ func recordAs(test string, c *Case, n int, bounds []int) {
 	cuts := cutsOf(c.Plan, n, bounds)
 	split := splitsAFrame(cuts, n, bounds)
 	wraps := n / int(8*c.Msize)
-	if c.Side == "lower" { // any msize 24..300
+	switch c.Side {
+	case "lower": // any msize 24..300
 		hx.Label(fmt.Sprintf("lower msize=%s plan=%s", sizeBucket(c.Msize), c.Plan.Kind))
-	} else {
+		hx.Label(fmt.Sprintf("%s dotu=%v frames=%s", c.Side, c.Dotu, bucket(len(bounds))))
+	case "malf", "cmalf": // (label cardinality: the dimensions separately)
+		hx.Label(fmt.Sprintf("%s msize=%d", c.Side, c.Msize))
+		hx.Label(fmt.Sprintf("%s plan=%s", c.Side, c.Plan.Kind))
+		hx.Label(fmt.Sprintf("%s dotu=%v", c.Side, c.Dotu))
+	default:
 		hx.Label(fmt.Sprintf("%s msize=%d plan=%s", c.Side, c.Msize, c.Plan.Kind))
+		hx.Label(fmt.Sprintf("%s dotu=%v frames=%s", c.Side, c.Dotu, bucket(len(bounds))))
 	}
-	hx.Label(fmt.Sprintf("%s dotu=%v frames=%s", c.Side, c.Dotu, bucket(len(bounds))))
 	switch {
 	case wraps == 0:
 		hx.Label(c.Side + " buffer never exhausted")
@@ -367,6 +394,12 @@ func recordAs(test string, c *Case, n int, bounds []int) {
 		return
 	case "pend":
 		recordPend(test, c, cuts, n, bounds)
+		return
+	case "malf":
+		recordMalf(test, c, cuts, n, bounds, split)
+		return
+	case "cmalf":
+		recordCMalf(test, c, cuts, n, bounds, split)
 		return
 	}
 	if c.Side == "nego" {
@@ -554,7 +587,7 @@ func enumerate(t *testing.T, test string, nstreams int, mk func(k int) *Case) {
 		rc.Plan = Plan{Kind: "frame"}
 		hx.Journal(test, &rc)
 		hx.Eval()
-		if base.Side == "client" {
+		if base.client() {
 			cl, _ = clientLayout(base)
 			refC, err = runClient(base, cl, frame)
 		} else {
@@ -577,7 +610,7 @@ func enumerate(t *testing.T, test string, nstreams int, mk func(k int) *Case) {
 			recordAs(test, &c, n, bounds)
 			total++
 			var err error
-			if c.Side == "client" {
+			if c.client() {
 				var got []Result
 				if got, err = runClient(&c, cl, c.Plan.Cuts); err == nil {
 					if d := diffResults(refC, got); d != "" {
